@@ -157,14 +157,8 @@ theorem opSignatureVerify_spec {c e u p cr eff d} (h : opSignatureVerify c e u p
 theorem opMac_spec {c e u a dt cr eff d} (h : opMac c e u a dt cr = .ok (eff, d)) : EffSpec c e Op.mac eff := by
   unfold opMac at h
   inv h
-  obtain ⟨_, _, _, _, _, h⟩ := h
-  split at h
-  · inv h
-  · inv h
-    obtain ⟨_, h⟩ := h
-    split at h
-    · inv h
-    · inv h; exact cryptoResult_spec _ h.2
+  strip h
+  exact cryptoResult_spec _ h
 
 theorem opActivate_spec {c e u eff d} (h : opActivate c e u = .ok (eff, d)) : EffSpec c e Op.activate eff := by
   unfold opActivate at h
